@@ -107,7 +107,9 @@ PROPS = {
         "property_files": ["C09.v"],
         "expected_theorems": ["C09_skeleton_unchanged", "C09_operator_count_unchanged", "C09_redecomposition_identical",
                               "C09_broken_cluster_weight_zero", "C09_zero_probability_cluster_never_flips", "C09_flip_keeps_worldline",
-                              "C09_flip_keeps_weight", "C09_flip_keeps_weight_with_broken_clusters", "C09_flip_involutive", "C09_validator_links"],
+                              "C09_flip_keeps_weight", "C09_flip_keeps_weight_with_broken_clusters", "C09_flip_involutive", "C09_validator_links",
+            "C09_cluster_kernel_detailed_balance", "C09_cluster_update_is_kernel",
+        ],
         "assumptions": [
             "world-line and weight preservation are proved for every labelling accepted by the executable validator (links_ok, sides_ok); that the decomposition algorithm always produces such a labelling is checked by evaluating the validator on every configuration of the correspondence runs (certified-checker style), not proved for all strings",
         ],
@@ -202,6 +204,7 @@ PROPS = {
                               "C01_cluster_flip_keeps_weight", "C01_cluster_flip_reversible", "C01_broken_cluster_never_flips",
                               "C01_reversible_is_stationary", "C01_sweep_stationary", "C01_offset_accounting"
             , "C01_metropolis_update_stationary", "C01_metropolis_update_stationary_pointwise", "C01_configuration_space_complete", "C01_configuration_space_ok", "C01_sweep_is_composition_of_slot_kernels", "C01_slot_kernel_detailed_balance", "C01_stationary_kernels_compose",
+            "C01_timestep_stationary", "C01_timestep_is_pipeline", "C01_cluster_update_stationary", "C01_refresh_stationary", "C01_refresh_is_sweep", "C01_space_check_sound",
         ],
         "assumptions": [
             "PARTIAL: proved are (i) the matrix elements, (ii) reversibility of every elementary move of the default pipeline w.r.t. the SSE configuration weight, (iii) that reversible stochastic kernels are stationary and that sweeps of stationary kernels are stationary. "
@@ -218,6 +221,7 @@ PROPS = {
         "expected_theorems": ["C02_heatbath_slot_reversible", "C02_same_ratio_as_metropolis", "C02_table_length", "C02_table_entry",
                               "C02_weight_le_maxweight", "C02_all_substates_scanned", "C02_offdiag_untouched"
             , "C02_heatbath_update_stationary", "C02_heatbath_update_stationary_pointwise", "C02_slot_kernel_detailed_balance", "C02_heatbath_slot_total",
+            "C02_heatbath_timestep_stationary",
         ],
         "assumptions": [
             "PARTIAL as C01: slot-level reversibility of the heat-bath program w.r.t. the same configuration weight is proved for every weight table; convergence of the whole chain is covered by the exact-diagonalisation oracle",
@@ -251,7 +255,9 @@ PROPS = {
         "property_files": ["C04.v"],
         "expected_theorems": ["C04_vertex_balance", "C04_exit_weight_is_new_weight", "C04_reverse_total", "C04_bounce_unchanged",
                               "C04_metropolis_slot_reversible", "C04_cluster_gate", "C04_symmetry_meaning", "C04_weights_nonneg",
-                              "C04_loop_keeps_leg_parity", "C04_diagonal_ops_even", "C04_loop_never_stores_nonpositive", "C04_loop_closes_consistently"],
+                              "C04_loop_keeps_leg_parity", "C04_diagonal_ops_even", "C04_loop_never_stores_nonpositive", "C04_loop_closes_consistently",
+            "C04_cluster_pipeline_stationary", "C04_diagonal_update_stationary",
+        ],
         "assumptions": [
             "PARTIAL: vertex-level detailed balance of the directed loop (for every Hamiltonian, arity and leg pair), slot-level reversibility of the diagonal update and the cluster gate are proved; closure of a loop into a consistent configuration is proved for every start and exit sequence (C04_loop_closes_consistently); convergence is decided by exact diagonalisation",
             "KNOWN FINDING odd-parity: interaction sets whose only spin-flip elements have odd leg parity (single-site matrices that are not constant, e.g. [2,1,1,0.5]) are accepted but not sampled ergodically (C04_loop_keeps_leg_parity explains why)",
